@@ -1,5 +1,5 @@
 """C06 - a failed or cancelled mutate never damages the input file (structural clauses)."""
-from ..rules import mutate, baseline, writers
+from ..rules import mutate, baseline, writers, serial
 
 EXPLANATION = (
     "Static rule checking of mutate's failure behaviour: R-EXC handler discipline around the yield (CancelMutation the only "
@@ -34,6 +34,9 @@ def c4(ctx):
     writers.charts_items(ctx)
     writers.base_items(ctx)
     writers.ssc_chart_items(ctx)
+    serial.smchart_writer_fields(ctx)
+    serial.serializer_raw_text(ctx)
+    serial.str_is_serialize(ctx)
 
 
 def c_api(ctx):
